@@ -18,9 +18,9 @@ import (
 // Ctx is handed to every property check.
 type Ctx struct {
 	iterDepth int // recursion guard of iterMustPass into helpers
-	P    *core.Program
-	R    *core.Report
-	Tier string
+	P         *core.Program
+	R         *core.Report
+	Tier      string
 }
 
 // Check is a property check entry point.
@@ -449,65 +449,104 @@ func (c *Ctx) matchGuardsA(fn *ssa.Function, sel IfArm, cut *ssau.Cut, depth int
 			if h == nil || h == fn || h.Pkg == nil || len(h.Blocks) == 0 || len(h.Blocks) > 40 || !strings.HasPrefix(h.Pkg.Pkg.Path(), core.Mod) {
 				continue
 			}
-			idx := ssau.VerdictIndex(h.Signature)
-			if idx < 0 {
-				continue
-			}
-			// does the helper let a success exit through without the guard? (its parameters stand for the arguments)
-			ssau.WithParamSubst(cl, func() {
-				hc := ssau.NewCut()
-				if c.matchGuards(h, sel, hc, depth+1) == 0 {
-					// the helper may return the guarding comparison itself
-					hc = nil
-				}
-				for _, boolSucc := range []bool{true, false} {
-					ec := &ssau.ExitClassifier{Fn: h, Idx: idx, BoolSuccess: boolSucc}
-					if !ec.IsBoolVerdict() && !boolSucc {
-						continue
+			for _, idx := range ssau.VerdictIndexes(h.Signature) {
+				idx := idx
+				// does the helper let a success exit through without the guard? (its parameters stand for the arguments)
+				ssau.WithParamSubst(cl, func() {
+					hc := ssau.NewCut()
+					if c.matchGuards(h, sel, hc, depth+1) == 0 {
+						// the helper may return the guarding comparison itself
+						hc = nil
 					}
-					guarded := false
-					if hc != nil {
-						r := ssau.ReachFromEntry(h, hc)
-						guarded = len(ec.SuccessExitsIn(r, hc)) == 0
-					}
-					if !guarded && ec.IsBoolVerdict() {
-						// every return is a constant !boolSucc or a condition matched by sel with that polarity
-						all, any := true, false
-						for _, ret := range ssau.Returns(h) {
-							v := ssau.ResolveSpill(ret.Results[idx])
-							if k, isC := v.(*ssa.Const); isC {
-								if k.Value != nil && k.Value.String() == fmt.Sprint(boolSucc) {
+					for _, boolSucc := range []bool{true, false} {
+						ec := &ssau.ExitClassifier{Fn: h, Idx: idx, BoolSuccess: boolSucc}
+						if !ec.IsBoolVerdict() && !boolSucc {
+							continue
+						}
+						guarded := false
+						if hc != nil {
+							r := ssau.ReachFromEntry(h, hc)
+							guarded = len(ec.SuccessExitsIn(r, hc)) == 0
+						}
+						if !guarded && ec.IsBoolVerdict() {
+							// every return is a constant !boolSucc or a condition matched by sel with that polarity
+							all, any := true, false
+							for _, ret := range ssau.Returns(h) {
+								v := ssau.ResolveSpill(ret.Results[idx])
+								if k, isC := v.(*ssa.Const); isC {
+									if k.Value != nil && k.Value.String() == fmt.Sprint(boolSucc) {
+										all = false
+									}
+									continue
+								}
+								if m, arm := safeSel(sel, &ssa.If{Cond: v}); m && arm == boolSucc {
+									any = true
+								} else {
 									all = false
 								}
-								continue
 							}
-							if m, arm := safeSel(sel, &ssa.If{Cond: v}); m && arm == boolSucc {
-								any = true
-							} else {
-								all = false
-							}
+							guarded = all && any
 						}
-						guarded = all && any
-					}
-					if !guarded {
-						continue
-					}
-					// the helper's success (nil / boolSucc) implies the guard: the pass edges of its verdict in fn count
-					for _, v := range ssau.ResultValues(cl, idx) {
-						edges, tested := ssau.PassEdges(fn, v, boolSucc)
-						if tested {
-							for _, e := range edges {
-								cut.AddEdge(e[0], e[1])
-								if iff, ok := e[0].Instrs[len(e[0].Instrs)-1].(*ssa.If); ok {
-									anchors = append(anchors, iff)
+						if !guarded {
+							continue
+						}
+						// the helper's success (nil / boolSucc) implies the guard: the pass edges of its verdict in fn count
+						for _, v := range ssau.ResultValues(cl, idx) {
+							edges, tested := ssau.PassEdges(fn, v, boolSucc)
+							if tested {
+								for _, e := range edges {
+									cut.AddEdge(e[0], e[1])
+									if iff, ok := e[0].Instrs[len(e[0].Instrs)-1].(*ssa.If); ok {
+										anchors = append(anchors, iff)
+									}
 								}
+								n++
 							}
-							n++
 						}
 					}
-				}
-			})
+				})
+			}
 		}
 	}
 	return n, anchors
+}
+
+// relocate returns the function in which a construct anchored at f lives now: f itself when it contains a call
+// matched by pred, otherwise the first same-package function statically called from f (to depth 2) that does.
+// Rules anchored at a named function stay attached to their construct when its body is split into helpers.
+func (c *Ctx) relocate(f *ssa.Function, pred func(*ssa.CallCommon) bool) *ssa.Function {
+	return c.relocateBy(f, func(g *ssa.Function) bool { return len(ssau.CallsIn(g, pred)) > 0 })
+}
+
+// relocateBy is relocate with an arbitrary "the construct is here" test.
+func (c *Ctx) relocateBy(f *ssa.Function, has func(*ssa.Function) bool) *ssa.Function {
+	if f == nil || has(f) {
+		return f
+	}
+	seen := map[*ssa.Function]bool{f: true}
+	level := []*ssa.Function{f}
+	for depth := 0; depth < 2; depth++ {
+		var next []*ssa.Function
+		for _, g := range level {
+			for _, b := range g.Blocks {
+				for _, in := range b.Instrs {
+					ci, ok := in.(ssa.CallInstruction)
+					if !ok {
+						continue
+					}
+					h := ci.Common().StaticCallee()
+					if h == nil || h.Pkg != f.Pkg || seen[h] || len(h.Blocks) == 0 {
+						continue
+					}
+					seen[h] = true
+					if has(h) {
+						return h
+					}
+					next = append(next, h)
+				}
+			}
+		}
+		level = next
+	}
+	return f
 }
